@@ -52,6 +52,39 @@ def source_flags(ctx=None):
 
 
 # ---- data ---------------------------------------------------------------------------------------------
+def tiny_models_probe(ctx, data):
+    """models in the n_neighbors >= n_samples corner whose training set passes through n_neighbors - 1, n_neighbors and n_neighbors + 1 rows
+    by update(): after every step transform returns one row per row of Y (new data, the current training data), repeatably"""
+    rs = np.random.RandomState(77)
+    for kbig in (12, 9):
+        X = rs.normal(size=(kbig + 1, NF)).astype(np.float32)
+        Y = data["Ya"][:3].copy() + np.float32(0.05)
+        n0 = kbig - 4
+        desc = dict(model="n_neighbors=%d fitted on %d rows, then update() with 3, 1, 1 rows" % (kbig, n0), X=X, Y=Y)
+        try:
+            m = umap.UMAP(n_neighbors=kbig, n_epochs=NEP, n_components=NC, random_state=11, transform_seed=5).fit(X[:n0].copy())
+        except Exception as e:
+            ctx.fail("transform:raises:tiny_model", "fit: %s: %s" % (type(e).__name__, e), desc); continue
+        have = n0
+        for step, add in enumerate([0, 3, 1, 1]):
+            try:
+                if add:
+                    m.update(X[have:have + add].copy()); have += add
+                outs = [("new", m.transform(Y.copy())), ("new", m.transform(Y.copy())), ("train", m.transform(X[:have].copy()))]
+            except Exception as e:
+                ctx.fail("transform:raises:tiny_model", "after %d update(s), %d training rows, n_neighbors=%d: %s: %s" % (step, have, kbig, type(e).__name__, str(e)[:120]), desc); break
+            ctx.evaluations += 3
+            ctx.tag(("tiny_model", kbig, step), ["tiny_model_n_neighbors_ge_n_samples"] + (["training_rows_eq_n_neighbors"] if have == kbig else []))
+            for what, o in outs:
+                n_in = have if what == "train" else Y.shape[0]
+                if o.shape != (n_in, NC):
+                    ctx.fail("transform:rows:tiny_model", "transform(%s) returned shape %r for %d input rows (%d training rows, n_neighbors=%d)" % (what, o.shape, n_in, have, kbig), desc); break
+            if not np.array_equal(outs[0][1], outs[1][1], equal_nan=True):
+                ctx.fail("transform:not_repeatable:tiny_model", "seeded model: transform(new) returned different bytes for the same input (%d training rows)" % have, desc)
+            if not np.array_equal(outs[2][1], m.embedding_, equal_nan=True):
+                ctx.fail("transform:not_stored_result:current_training_data:tiny_model", "transform(current training data) did not return embedding_ (%d training rows)" % have, desc)
+
+
 def make_data(seed):
     rs = np.random.RandomState(seed)
     d = dict(X1=rs.normal(size=(N1, NF)), Ya=rs.normal(size=(3, NF)), Yb=rs.normal(size=(2, NF)),
@@ -457,6 +490,7 @@ def run(ctx):
             explore(ctx, cfg, data, base, ops, depth, allow, records, flags)
         ctx.notes.append("%s: %d histories in %.0fs" % (cfg["name"], len(records) - n0, time.time() - t0))
     unique_models_probe(ctx, data)
+    tiny_models_probe(ctx, data)
     for _, sig, msg, case in sorted(PENDING, key=lambda t: t[0]):
         ctx.fail(sig, msg, case)
     del PENDING[:]
